@@ -1647,7 +1647,13 @@ func callBin(n *node) {
 			return fnext
 		}
 	default:
-		switch n.anc.action {
+		ancAction := n.anc.action
+		if ancAction == aReturn && len(n.anc.child) > 1 {
+			// With several operands, the results of a return statement are set by
+			// the return itself, once all its operands are evaluated.
+			ancAction = aNop
+		}
+		switch ancAction {
 		case aAssignX:
 			// The function call is part of an assign expression, store results direcly
 			// to assigned location, to avoid an additional frame copy.
